@@ -28,6 +28,18 @@ MOD = "pykdebugparser.kd_buf_parser"
 SELF = param("self")
 
 
+def _short_read(c: T, pol: bool, raw: T, ks: int) -> bool:
+    """the condition (with its polarity) says: len(<the raw read>) differs from the record size"""
+    atom, apol = render.norm_bool(c)
+    eff = pol if apol else not pol
+    ln = T("call", (T("builtin", ("len",)), (raw,), ()))
+    if atom.op == "cmp" and atom.a[0] == "==" and {atom.a[1], atom.a[2]} == {ln, const(ks)}:
+        return not eff
+    if atom.op == "cmp" and atom.a[0] in ("<", ">") and ln in (atom.a[1], atom.a[2]) and const(ks) in (atom.a[1], atom.a[2]):
+        return eff
+    return False
+
+
 def check(repo: Repo, run: Run) -> None:
     interp = sym.Interp(repo)
     mod = repo.module("kd_buf_parser")
@@ -79,13 +91,18 @@ def check(repo: Repo, run: Run) -> None:
            f"parse_v2 also calls reader.{[c.func.a[1] for c in seeks]}", nontrivial=False)
     # exits: the loop is left exactly when the read is empty (break on an empty read, or `while <raw read>`)
     test_conds = streams.loop_test_conditions(rec, [lp.id])
-    good_exit, bad_exit = [], []
+    good_exit, bad_exit, short_raise = [], [], []
     for kind, pc, seq, lineno in lp.exits:
         inner = [c for c in pc[len(loop_pc):] if c not in test_conds]
         # (`return` inside a generator that parse_v2 delegates to ends the record loop just like `break`)
         if (kind == "break" or (kind == "return" and not lp.func.endswith("parse_v2"))) and len(inner) == 1 \
                 and streams.empty_test(inner[0][0], inner[0][1], reader) == raw:
             good_exit.append(lineno)
+        elif kind == "raise" and inner and any(_short_read(c, v, raw, ks) for c, v in inner) and all(
+                _short_read(c, v, raw, ks) or streams.empty_test(c, not v, reader) == raw for c, v in inner):
+            # an explicit error for a record that is neither empty nor complete - what struct.unpack does by itself to a short
+            # buffer; the loop is not left normally this way (C06 is about what a truncated dump reports before that)
+            short_raise.append(lineno)
         else:
             bad_exit.append((kind, lineno, [sym.pretty(c)[:50] for c, _ in inner]))
     test_exit = lp.kind == "while" and lp_test is not None and render.norm_bool(lp_test)[1] \
